@@ -1,0 +1,155 @@
+//go:build verif
+
+// Contracts for package null, checked by /verif/engine (plencvc). This file
+// contains comments only and is compiled only under the verif build tag.
+//
+// Layout facts used (database/sql Null types, gc/amd64): NullInt64{Int64@0,
+// Valid@8}, NullBool{Bool@0, Valid@1}, NullFloat64{Float64@0, Valid@8},
+// NullString{String@0, Valid@16}, NullTime{Time@0, Valid@24}.
+
+package null
+
+//@ func github.com/unravelin/null.*Int.SetValid
+//@   inline
+//@ func github.com/unravelin/null.*Bool.SetValid
+//@   inline
+
+// --- null.Int ---------------------------------------------------------------
+
+//@ func null.nullIntCodec.Omit
+//@   safety C09
+//@   assigns nothing
+//@   ensures[C09,C02] result == !loadbool(ptr + 8)
+
+//@ func null.nullIntCodec.Size
+//@   safety C05
+//@   assigns nothing
+//@   ensures[C05] result == vlen(zz(loadi64(ptr))) + len(tag)
+
+//@ func null.nullIntCodec.Append
+//@   safety C02 C11
+//@   assigns nothing
+//@   appends[C02,C05,C09,C11] data bytes(tag) ++ venc(zz(loadi64(ptr)))
+
+//@ func null.nullIntCodec.Read
+//@   safety C04 C11
+//@   assigns[C10,C11] nothing
+//@   writes ptr 9
+//@   ensures[C04,C05] err == nil ==> 0 <= n && n <= len(data)
+//@   ensures[C09] err == nil ==> loadbool(ptr + 8)
+//@   ensures[C09,C01,C05] forall x int64 :: len(data) >= vlen(zz(x)) && at(data, 0, venc(zz(x)), 10) ==> err == nil && n == vlen(zz(x)) && loadi64(ptr) == x && loadbool(ptr + 8)
+
+//@ func null.nullIntCodec.Descriptor
+//@   safety C14
+//@   assigns nothing
+//@   ensures[C14,C09] result.Type == 0 && result.ExplicitPresence && result.Index == 0 && len(result.Name) == 0 && len(result.TypeName) == 0 && len(result.Elements) == 0 && result.LogicalType == 0
+
+// --- null.Bool --------------------------------------------------------------
+
+//@ func null.nullBoolCodec.Omit
+//@   safety C09
+//@   assigns nothing
+//@   ensures[C09,C02] result == !loadbool(ptr + 1)
+
+//@ func null.nullBoolCodec.Size
+//@   safety C05
+//@   assigns nothing
+//@   ensures[C05] result == 1 + len(tag)
+
+//@ func null.nullBoolCodec.Append
+//@   safety C02 C11
+//@   assigns nothing
+//@   appends[C02,C05,C09,C11] data bytes(tag) ++ venc(ite(loadbool(ptr), 1, 0))
+
+//@ func null.nullBoolCodec.Read
+//@   safety C04 C11
+//@   assigns[C10,C11] nothing
+//@   writes ptr 2
+//@   ensures[C04,C05] err == nil ==> 0 <= n && n <= len(data)
+//@   ensures[C09] err == nil ==> loadbool(ptr + 1)
+//@   ensures[C09,C01,C05] forall u uint64 :: len(data) >= vlen(u) && at(data, 0, venc(u), 10) ==> err == nil && n == vlen(u) && loadbool(ptr) == (u != 0) && loadbool(ptr + 1)
+
+//@ func null.nullBoolCodec.Descriptor
+//@   safety C14
+//@   assigns nothing
+//@   ensures[C14,C09] result.Type == 7 && result.ExplicitPresence && result.Index == 0 && len(result.Name) == 0 && len(result.TypeName) == 0 && len(result.Elements) == 0 && result.LogicalType == 0
+
+// --- null.Float -------------------------------------------------------------
+
+//@ func null.nullFloatCodec.Omit
+//@   safety C09
+//@   assigns nothing
+//@   ensures[C09,C02] result == !loadbool(ptr + 8)
+
+//@ func null.nullFloatCodec.Size
+//@   safety C05
+//@   assigns nothing
+//@   ensures[C05] result == 8 + len(tag)
+
+//@ func null.nullFloatCodec.Append
+//@   safety C02 C11
+//@   assigns nothing
+//@   appends[C02,C05,C09,C11] data bytes(tag) ++ le64(load64(ptr))
+
+//@ func null.nullFloatCodec.Read
+//@   safety C04 C11
+//@   assigns[C10,C11] nothing
+//@   writes ptr 9
+//@   ensures[C04,C05] err == nil ==> 0 <= n && n <= len(data)
+//@   ensures[C09] err == nil ==> loadbool(ptr + 8)
+//@   ensures[C09,C01,C05] forall b uint64 :: len(data) >= 8 && at(data, 0, le64(b), 8) ==> err == nil && n == 8 && load64(ptr) == b && loadbool(ptr + 8)
+
+//@ func null.nullFloatCodec.Descriptor
+//@   safety C14
+//@   assigns nothing
+//@   ensures[C14,C09] result.Type == 3 && result.ExplicitPresence && result.Index == 0 && len(result.Name) == 0 && len(result.TypeName) == 0 && len(result.Elements) == 0 && result.LogicalType == 0
+
+// --- null.String ------------------------------------------------------------
+
+//@ func null.nullStringCodec.Omit
+//@   safety C09
+//@   assigns nothing
+//@   ensures[C09,C02] result == !loadbool(ptr + 16)
+
+//@ func null.nullStringCodec.Size
+//@   safety C05
+//@   assigns nothing
+//@   ensures[C05] len(tag) == 0 ==> result == len(loadstr(ptr))
+//@   ensures[C05] len(tag) > 0 ==> result == len(tag) + vlen(uint64(len(loadstr(ptr)))) + len(loadstr(ptr))
+
+//@ func null.nullStringCodec.Append
+//@   safety C02 C11
+//@   assigns nothing
+//@   appends[C02,C05,C09,C11] data ite(len(tag) != 0, bytes(tag) ++ venc(uint64(len(loadstr(ptr)))) ++ bytes(loadstr(ptr)), bytes(loadstr(ptr)))
+
+//@ func null.nullStringCodec.Read
+//@   safety C04 C11
+//@   assigns[C10,C11] nothing
+//@   writes ptr 17
+//@   ensures[C04,C05,C01] err == nil && n == len(data)
+//@   ensures[C09] loadbool(ptr + 16)
+//@   ensures[C01,C09,C11] bytes(loadstr(ptr)) == old(bytes(data))
+
+//@ func null.nullStringCodec.Descriptor
+//@   safety C14
+//@   assigns nothing
+//@   ensures[C14,C09] result.Type == 4 && result.ExplicitPresence && result.Index == 0 && len(result.Name) == 0 && len(result.TypeName) == 0 && len(result.Elements) == 0 && result.LogicalType == 0
+
+// --- null.Time --------------------------------------------------------------
+
+//@ func null.*nullTimeCodec.Omit
+//@   safety C09
+//@   assigns nothing
+//@   ensures[C09,C02] result == !loadbool(ptr + 24)
+
+//@ func null.*nullTimeCodec.Read
+//@   safety C04 C11
+//@   assigns[C10,C11] nothing
+//@   writes ptr 25
+//@   ensures[C04,C05] err == nil ==> 0 <= n && n <= len(data)
+//@   ensures[C09] err == nil ==> loadbool(ptr + 24)
+
+//@ func null.nullTimeCodec.Descriptor
+//@   safety C14
+//@   assigns nothing
+//@   ensures[C14,C09] result.Type == 8 && result.LogicalType == 1 && result.ExplicitPresence && result.Index == 0 && len(result.Name) == 0 && len(result.TypeName) == 0 && len(result.Elements) == 0
